@@ -4,6 +4,7 @@ import (
 	"fmt"
 	"go/token"
 	"go/types"
+	"strings"
 
 	"golang.org/x/tools/go/ssa"
 )
@@ -269,7 +270,70 @@ func (vc *VC) overflowCheck(v ssa.Value, term string, t types.Type, pc string) {
 	}
 }
 
+// isIntLit: a decimal literal, possibly negated
+func isIntLit(s string) bool {
+	if strings.HasPrefix(s, "(- ") && strings.HasSuffix(s, ")") {
+		s = s[3 : len(s)-1]
+	}
+	if s == "" {
+		return false
+	}
+	for _, c := range s {
+		if c < '0' || c > '9' {
+			return false
+		}
+	}
+	return true
+}
+
+// mulTerm keeps the solver inside linear arithmetic: a product of two non-literal terms becomes the
+// uninterpreted nlmul (prelude: commutative, zero, one, sign, lower bound). z3's nonlinear engine
+// produced an unsound "unsat" on such a goal (DESIGN.md, false-pass F1), so it is never invoked.
+func mulTerm(a, b string) string {
+	if isIntLit(a) || isIntLit(b) {
+		return sx("*", a, b)
+	}
+	if c, x, y, ok := splitIte(b); ok && isIntLit(x) && isIntLit(y) {
+		return sx("ite", c, sx("*", a, x), sx("*", a, y))
+	}
+	if c, x, y, ok := splitIte(a); ok && isIntLit(x) && isIntLit(y) {
+		return sx("ite", c, sx("*", x, b), sx("*", y, b))
+	}
+	return sx("nlmul", a, b)
+}
+
+// splitIte decomposes "(ite c x y)" into its three top-level arguments.
+func splitIte(s string) (c, x, y string, ok bool) {
+	if !strings.HasPrefix(s, "(ite ") || !strings.HasSuffix(s, ")") {
+		return
+	}
+	body := s[5 : len(s)-1]
+	var parts []string
+	d, start := 0, 0
+	for i := 0; i < len(body); i++ {
+		switch body[i] {
+		case '(':
+			d++
+		case ')':
+			d--
+		case ' ':
+			if d == 0 {
+				parts = append(parts, body[start:i])
+				start = i + 1
+			}
+		}
+	}
+	parts = append(parts, body[start:])
+	if len(parts) != 3 {
+		return
+	}
+	return parts[0], parts[1], parts[2], true
+}
+
 func truncDiv(x, y string) string {
+	if isIntLit(y) && !strings.HasPrefix(y, "(-") && y != "0" {
+		return sx("ite", sx(">=", x, "0"), sx("div", x, y), sx("-", sx("div", sx("-", x), y)))
+	}
 	return sx("ite", sx(">=", x, "0"),
 		sx("ite", sx(">", y, "0"), sx("div", x, y), sx("-", sx("div", x, sx("-", y)))),
 		sx("ite", sx(">", y, "0"), sx("-", sx("div", sx("-", x), y)), sx("div", sx("-", x), sx("-", y))))
@@ -292,7 +356,7 @@ func (vc *VC) execBinOp(x *ssa.BinOp, pc string, st *State) {
 		vc.overflowCheck(x, v, x.Type(), pc)
 		vc.setVal(x, v)
 	case token.MUL:
-		v := sx("*", a, b)
+		v := mulTerm(a, b)
 		vc.overflowCheck(x, v, x.Type(), pc)
 		vc.setVal(x, v)
 	case token.QUO:
@@ -300,7 +364,7 @@ func (vc *VC) execBinOp(x *ssa.BinOp, pc string, st *State) {
 		vc.setVal(x, truncDiv(a, b))
 	case token.REM:
 		vc.oblige("divzero", "", pc, not(eq(b, "0")), nil, x.Pos(), "division by zero")
-		vc.setVal(x, sx("-", a, sx("*", b, truncDiv(a, b))))
+		vc.setVal(x, sx("-", a, mulTerm(b, truncDiv(a, b))))
 	case token.LSS:
 		vc.cmpOp(x, "<", a, b, t)
 	case token.LEQ:
